@@ -248,7 +248,9 @@ class StringifyMapper(Mapper):
     def map_power(self, expr, enclosing_prec, *args, **kwargs):
         return self.parenthesize_if_needed(
                 self.format("%s**%s",
-                    self.rec(expr.base, PREC_POWER, *args, **kwargs),
+                    # '**' associates to the right: a power (or unary
+                    # operator) in the base needs parentheses.
+                    self.rec(expr.base, PREC_POWER+1, *args, **kwargs),
                     self.rec(expr.exponent, PREC_POWER, *args, **kwargs)),
                 enclosing_prec, PREC_POWER)
 
